@@ -441,6 +441,17 @@ func (rs *ResourceSubscription) handleResetResource(t *Throttle) {
 
 	rs.resetting = true
 
+	// The get request uses the cache entry. Keep the entry, and with it the
+	// event subscription, until the request is answered, also when no client
+	// subscribes to the resource and the entry is waiting to be evicted.
+	if rs.e.count == 0 {
+		rs.e.cache.unsubQueue.Remove(rs.e)
+	}
+	rs.e.count++
+	if rs.e.cache.metrics != nil {
+		rs.e.cache.metrics.CacheSubscriptions.Add(1)
+	}
+
 	// Create request
 	subj := "get." + rs.e.ResourceName
 	payload := codec.CreateGetRequest(rs.query)
@@ -451,6 +462,7 @@ func (rs *ResourceSubscription) handleResetResource(t *Throttle) {
 				rs.e.Enqueue(func() {
 					rs.resetting = false
 					rs.processResetGetResponse(data, err)
+					rs.e.removeCount(1)
 				})
 				t.Done()
 			})
@@ -460,6 +472,7 @@ func (rs *ResourceSubscription) handleResetResource(t *Throttle) {
 			rs.e.Enqueue(func() {
 				rs.resetting = false
 				rs.processResetGetResponse(data, err)
+				rs.e.removeCount(1)
 			})
 		})
 	}
